@@ -61,8 +61,9 @@ def main(argv=None):
     if rc2 == 0 and chk_holder and chk_holder[0].prog.normal_info:
         sys.stdout.write(buf2.getvalue())
         inl = sorted({h for v in chk_holder[0].prog.normal_info.values() for h in v["helpers_inlined"]})
-        print(f"note: the rules did not recognise the tree as written (first run: exit {rc}); they hold on its N1 normal form "
-              f"(private helpers inlined into their callers: {', '.join(inl)})")
+        nun = sum(v.get("loops_unrolled", 0) for v in chk_holder[0].prog.normal_info.values())
+        print(f"note: the rules did not recognise the tree as written (first run: exit {rc}); they hold on its normal form "
+              f"(N1 private helpers inlined into their callers: {', '.join(inl) or 'none'}; N2 loops over literal tables unrolled: {nun})")
         return 0
     # not clean on either form: the report on the tree as written stands (re-run to rewrite its evidence file)
     with contextlib.redirect_stdout(io.StringIO()):
